@@ -579,7 +579,51 @@ def plan(tier, cls_name="full"):
     return items, depth
 
 
+def w_irq_role(item, rep):
+    """interrupt_config() must stay in force when the role is (re-)asserted afterwards (the listen setter
+    re-writes CONFIG): for every IRQ mask x role x {same role re-assigned, role toggled twice} x event the IRQ
+    line is asserted iff the event that occurs is enabled"""
+    import itertools
+    cls_name, seed, pid = item
+    for role in ("rx", "tx"):
+        for cfg in itertools.product((True, False), repeat=3):
+            for how in ("reassign", "toggle-twice"):
+                events = [("rx", 1, 5)] if role == "rx" else [("tx", 5, 0, 0, False), ("tx", 5, 0, 0, True)]
+                for ev in events:
+                    s = mk_root(dict(cls=cls_name, role=role, mode="dyn", ackpl=False), seed)
+                    s.w.activate()
+                    d, rd = s.d, s.rd
+                    d.interrupt_config(*cfg)
+                    if how == "reassign":
+                        d.listen = (role == "rx")
+                    else:
+                        d.listen = (role != "rx")
+                        d.listen = (role == "rx")
+                    if role == "tx":
+                        d.open_tx_pipe(s.addr[1])
+                    s.w.advance(500 * US)
+                    apply_event(s, ev, seed)
+                    flag = 0x40 if role == "rx" else (0x10 if ev[4] else 0x20)
+                    latched = bool(rd.r[0x07] & flag)
+                    enabled = cfg[0] if flag == 0x40 else (cfg[1] if flag == 0x20 else cfg[2])
+                    asserted = not rd.irq_line()
+                    rep.case()
+                    rep.transitions += 3
+                    rep.traces += 1
+                    rep.outcome("irq-role:%s:%s:%s" % (role, "enabled" if enabled else "masked", "asserted" if asserted else "idle"))
+                    rep.nt("irq-role:%s:%r:%s:%r" % (role, cfg, how, ev))
+                    if not latched:
+                        raise HarnessError("the event did not latch its flag (STATUS %#04x)" % rd.r[0x07])
+                    if asserted != enabled:
+                        rep.violation("%s/irq-line:%s:after-role-%s" % (pid, "spurious" if asserted else "missing", how),
+                                      "interrupt_config%r, then listen %s, then a %s event: the IRQ line is %s (CONFIG %#04x)" % (
+                                          cfg, how, {0x40: "data-ready", 0x20: "data-sent", 0x10: "data-fail"}[flag], "asserted" if asserted else "idle", rd.r[0]),
+                                      {"part": "irq-role", "cls": cls_name, "seed": seed})
+
+
 def run_accessors(tier, seed, rep, cls_name="full", pid=PID, only=None):
+    if not only or "irqrole" in only:
+        pmap(w_irq_role, [(cls_name, seed, pid)], rep)
     items, depth = plan(tier, cls_name)
     work = []
     for spec, prefix, group, dep, v in items:
@@ -634,6 +678,12 @@ def run(tier, seed, rep, only=None):
 
 def replay(data):
     r = data["replay"]
+    if r.get("part") == "irq-role":
+        from ..engine import Report
+        rp = Report()
+        w_irq_role((r["cls"], r["seed"], data.get("property", PID)), rp)
+        want = data.get("signature")
+        return [(s_, v_["what"]) for s_, v_ in rp.violations.items() if want is None or s_ == want]
     spec, ops, seed = r["spec"], [tuple(o) for o in r["ops"]], r["seed"]
     from ..engine import Report
     rep = Report()
